@@ -2,13 +2,26 @@
 //   1 i ht | 2 i prio | 3 i | 4 i b | 5 i b | 6 i a | 7 i l w | 17 i l | 8 i out | 9 i | 10 i | 11 i | 12 i to w
 //   13 i full (query; full != 0: also rule()) | 14 i j (b[j] = new copy of b[i]) | 15 i j (b[j] = b[i]) | 16 i j (swap)
 // Every mutating op prints a status (0 ok, 1 std::logic_error = POTASSCO_ASSERT, 9 other exception); the case stops
-// at the first exception.  end(out) additionally prints the recorded AbstractProgram call.  A query prints
+// at the first exception.  end(out): out = 0 no receiver, out = 2 a receiver that records the call and then THROWS
+// (Refused, a std::logic_error) from rule()/minimize(), any other value a recording receiver that accepts.  Printed: the
+// status (0; 3 = the receiver threw and the exception propagated out of end(); 4 = the receiver threw but end() swallowed
+// it; 5 = the throwing receiver was never called) followed by the call the receiver got.  After a refused end the history
+// CONTINUES on the same builder (it must be frozen, keep the finished rule, and start the next rule from nothing).  A query prints
 // head(), bodyType(), bound(), body()/sum() and (full) rule().  An op whose arguments are missing ends the case.
 #include "common.h"
 #include "rec.h"
 #include <potassco/rule_utils.h>
 #include <memory>
 using namespace Potassco;
+// A receiver that records what it is given (same encoding as Recorder) and then refuses it.
+struct Refused : std::logic_error { Refused() : std::logic_error("refused by receiver") {} };
+struct Thrower : Recorder {
+	unsigned calls;
+	explicit Thrower(Obs& out) : Recorder(out), calls(0) {}
+	void rule(Head_t ht, const AtomSpan& head, const LitSpan& body) override { ++calls; Recorder::rule(ht, head, body); throw Refused(); }
+	void rule(Head_t ht, const AtomSpan& head, Weight_t bound, const WeightLitSpan& body) override { ++calls; Recorder::rule(ht, head, bound, body); throw Refused(); }
+	void minimize(Weight_t prio, const WeightLitSpan& lits) override { ++calls; Recorder::minimize(prio, lits); throw Refused(); }
+};
 static size_t idx(ll v) { return static_cast<size_t>(((v % 3) + 3) % 3); }
 static int arity(ll op) {
 	switch (op) {
@@ -79,11 +92,22 @@ int main() {
 					case 7:  { Lit_t l = (Lit_t)c.next(); Weight_t w = (Weight_t)c.next(); WeightLit_t wl = {l, w}; b[i]->addGoal(wl); o.add(0); break; }
 					case 17: { Lit_t l = (Lit_t)c.next(); b[i]->addGoal(l); o.add(0); break; }
 					case 8:  {
-						bool out = c.next() != 0;
+						ll out = c.next();
 						// the status is printed before the call so that the call follows it
-						std::string keep = o.s; o.add(0);
-						try { b[i]->end(out ? &rec : 0); }
+						std::string keep = o.s;
+						if (out != 2) {
+							o.add(0);
+							try { b[i]->end(out != 0 ? &rec : 0); }
+							catch (...) { o.s = keep; throw; }
+							break;
+						}
+						Thrower thr(o);
+						bool propagated = false;
+						o.add(3);
+						try { b[i]->end(&thr); }
+						catch (const Refused&) { propagated = true; }
 						catch (...) { o.s = keep; throw; }
+						if (!propagated) { o.s = keep; o.add(thr.calls ? 4 : 5); stopped = true; }
 						break;
 					}
 					case 9:  { b[i]->clear(); o.add(0); break; }
